@@ -66,6 +66,57 @@ def hdap_dissect(frame: bytes, proto: Optional[str] = None) -> Dict:
     return {"proto": p, "reliable": bool(frame[0] & 0x80), "opcode": frame[1:3], "length": length, "payload": frame[5:-2], "checksum": frame[-2]}
 
 
+# ------------------------------------------------- payload layouts of the big-endian services (kaitai specs + captures)
+
+
+def radio_ip(subnet: int, radio_id: int) -> bytes:
+    """radio_ip.ksy: first IPv4 octet (subnet) + 24-bit radio id, network order"""
+    return bytes([subnet]) + radio_id.to_bytes(3, "big")
+
+
+def rrs_payload(op: int, subnet: int, radio_id: int, result: int = 0, valid_time: int = 0, state: int = 0) -> bytes:
+    """radio_registration_service.ksy: radio_ip | result u1 (0x80 ack / 0x82 online check ack) | valid_time u4be (0x80)"""
+    out = radio_ip(subnet, radio_id)
+    if op == 0x80:
+        out += bytes([result]) + valid_time.to_bytes(4, "big")
+    elif op == 0x82:
+        out += bytes([state])
+    return out
+
+
+def gps_block(valid: str, hms, dmy, ns: str, lat_1e4: int, ew: str, lon_1e4: int, speed_text, course: int) -> bytes:
+    """gpsdata.ksy, 40 characters: status(1) HHMMSS(6) DDMMYY(6) N/S(1) DDMM.MMMM(9) E/W(1) DDDMM.MMMM(10) speed(3) azimuth(3).
+    Absent time / date / speed / azimuth are NUL filled (capture 2 of test_lp.py).  Numeric text is zero padded to the field
+    width (NMEA 0183 convention; capture 1 shows 01854.4387).  lat/lon are given in 1/10000 minute units."""
+    t = b"\x00" * 6 if hms is None else b"%02d%02d%02d" % tuple(hms)
+    d = b"\x00" * 6 if dmy is None else b"%02d%02d%02d" % (dmy[0], dmy[1], dmy[2] % 100)
+    lat = b"%04d.%04d" % divmod(lat_1e4, 10000)
+    lon = b"%05d.%04d" % divmod(lon_1e4, 10000)
+    sp = b"\x00" * 3 if speed_text is None else speed_text.encode("ascii")
+    az = b"\x00" * 3 if not course else b"%03d" % course
+    out = valid.encode("ascii") + t + d + ns.encode("ascii") + lat + ew.encode("ascii") + lon + sp + az
+    assert len(lat) == 9 and len(lon) == 10
+    return out
+
+
+def lp_payload(op: int, request_id: int, subnet: int, radio_id: int, result: int = 0, gps: bytes = b"") -> bytes:
+    """location_protocol.ksy standard_request / standard_answer: request_id u4be | radio_ip | (result u2be | gpsdata)"""
+    out = request_id.to_bytes(4, "big") + radio_ip(subnet, radio_id)
+    if op == 0xA002:
+        out += result.to_bytes(2, "big") + gps
+    return out
+
+
+def tmp_payload(op: int, request_id: int, dst, src=None, body: bytes = b"", option=None) -> bytes:
+    """text_message_protocol.ksy: (option_field_len u2be) | request_id u4be | destination radio_ip | source radio_ip (absent in
+    the group acks) | result u1 (acks) or UTF-16LE text / short data | option field.  dst/src = (subnet, id)."""
+    out = b"" if option is None else len(option).to_bytes(2, "big")
+    out += request_id.to_bytes(4, "big") + radio_ip(*dst)
+    if src is not None:
+        out += radio_ip(*src)
+    return out + bytes(body) + (b"" if option is None else bytes(option))
+
+
 # ------------------------------------------------------------------------------------------------------------- HRNP
 
 HRNP_OPCODES = {"CONNECT": 0xFE, "ACCEPT": 0xFD, "REJECT": 0xFC, "CLOSE": 0xFB, "CLOSE_ACK": 0xFA, "DATA": 0x00, "DATA_ACK": 0x10}
@@ -295,6 +346,28 @@ CAPTURED_IPSC = [
 ]
 
 
+# captured HDAP frames whose field values the repository's tests document -> payload from the layout functions above
+CAPTURED_PAYLOADS = [
+    ("91008000090a0000500000000e103103", rrs_payload(0x80, 10, 80, 0, 3600)),  # test_rrs_answer: 10.0.0.80, success, 3600 s
+    ("91000200040a0000140e03", rrs_payload(0x02, 10, 20)),  # test_rrs_status_check_request: 10.0.0.20
+    ("11008200050a000021008003", rrs_payload(0x82, 10, 33, state=0)),  # test_rrs_status_check_answer: 10.0.0.33 online
+    ("11000300040a000064bd03", rrs_payload(0x03, 10, 100)),  # registration inside the HSTRP capture
+    # test_lp.py: request 1, 10.33.16.221, OK, VALID 18:36:48 26.10.15 N4718.8051 E01854.4387 0.1 kn 121 deg
+    ("08a0020032000000010a2110dd0000413138333634383236313031354e343731382e383035314530313835342e34333837302e313132310b03",
+     lp_payload(0xA002, 1, 10, 2167005, 0, gps_block("A", (18, 36, 48), (26, 10, 2015), "N", 47188051, "E", 18544387, "0.1", 121))),
+    # test_lp.py: request 3, 0.35.55.251, OK, VALID, no time/date, N5003.8771 E01426.5302, no speed / azimuth
+    ("08a002003200000003002337fb0000410000000000000000000000004e353030332e383737314530313432362e353330320000000000007003",
+     lp_payload(0xA002, 3, 0, 2308091, 0, gps_block("A", None, None, "N", 50038771, "E", 14265302, None, 0))),
+    # test_tmp.py: private message, request 1, to 10.1.178.7 from 10.3.100.14, "OLIVER TEST"
+    ("0980a10022000000010a01b2070a03640e4f004c004900560045005200200054004500530054007a03",
+     tmp_payload(0xA1, 1, (10, 0x01B207), (10, 0x03640E), "OLIVER TEST".encode("utf-16-le"))),
+    ("0980a2000D000000010a01b2070a030000003103", tmp_payload(0xA2, 1, (10, 0x01B207), (10, 0x030000), b"\x00")),  # test_ack: result OK
+    # test_ack_with_option_field: request 2, to radio 111111 from 196608, result OK, option 01 02 03
+    ("09c0a200120003000000020a01b2070a03000000010203e203", tmp_payload(0xA2, 2, (10, 111111), (10, 196608), b"\x00", b"\x01\x02\x03")),
+    ("0980B1001400000001000000010A000835610068006F006A000203", tmp_payload(0xB1, 1, (0, 1), (10, 0x000835), "ahoj".encode("utf-16-le"))),
+]
+
+
 def selfcheck() -> int:
     """Re-assemble every captured vector with the reference encoders.  Returns the number of vectors; raises RefError."""
     n = 0
@@ -303,6 +376,11 @@ def selfcheck() -> int:
         d = hdap_dissect(b)
         if hdap_frame(d["proto"], d["reliable"], d["opcode"], d["payload"]) != b:
             raise RefError(f"HDAP capture not reproduced: {h}")
+        n += 1
+    for h, want in CAPTURED_PAYLOADS:
+        d = hdap_dissect(bytes.fromhex(h))
+        if d["payload"] != want:
+            raise RefError(f"payload layout reference does not reproduce capture {h}: {want.hex()}")
         n += 1
     for h in CAPTURED_HRNP:
         b = bytes.fromhex(h)
